@@ -495,11 +495,25 @@ def parse_mir(text):
                         pm = re.match(r"_(\d+): (.*)$", p)
                         params.append((int(pm.group(1)), pm.group(2)))
             else:
-                m = re.match(r"^(?:const|static(?: mut)?) (.+?): (.+?) = \{$", hdr)
+                m = re.match(r"^(?:const|static(?: mut)?) (.+) = \{$", hdr)
                 if not m:
                     i += 1
                     continue
-                name, ret, params = m.group(1), m.group(2), []
+                body = m.group(1)
+                depth = 0
+                cut = None
+                for k, c in enumerate(body):
+                    if c == "<":
+                        depth += 1
+                    elif c == ">" and body[k - 1] != "-":
+                        depth -= 1
+                    elif c == ":" and depth == 0 and body[k + 1:k + 2] == " " and body[k - 1] != ":":
+                        cut = k
+                        break
+                if cut is None:
+                    i += 1
+                    continue
+                name, ret, params = body[:cut], body[cut + 2:], []
             i += 1
             locals_ = {}
             blocks = {}
